@@ -591,3 +591,362 @@ def probes_for(rng, B):
     for _ in range(2):
         out.append([rng.randrange(-3, 4) for _ in range(B)])
     return out
+
+
+# ----------------------------------------------------------------------------- call histories (C04)
+# A history is a JSON-able list of public calls made on live containers between their construction
+# and the call the property speaks about (CorrFunc.sample, RedshiftData.from_corrfuncs, .normalised).
+# Observers are the public methods documented to return a value / a new object; the position of an
+# observer in CF_OBS is the `o` of Model/Estimators.v:H_obs (0 = NormalisedCounts.get_array).
+# `then` says what the caller does with a derived object (a slice, a sum, a copy, a re-read file).
+# The only public method that stores into a container is PatchedCounts.set_patch_pair ("set").
+import copy as _copy      # noqa: E402
+import pickle as _pickle  # noqa: E402
+
+ALLK = ("dd",) + KINDS
+PKIND = dict(dd="K_dd", dr="K_dr", rd="K_rd", rr="K_rr")
+CF_OBS = ["nc.get_array", "counts.get_array", "weights.get_array", "nc.sample_patch_sum", "counts.sample_patch_sum",
+          "weights.sample_patch_sum", "nc.bins", "nc.patches", "cf.bins", "cf.patches", "cf.iter_bins", "cf.to_dict",
+          "cf.to_file", "cf.eq", "cf.is_compatible", "cf.repr", "cf.sample", "nz.from_corrfuncs", "cf.add", "cf.mul",
+          "nc.add", "nc.mul", "nc.sum", "cf.pickle", "cf.deepcopy"]
+CF_DERIVING = {"nc.bins", "nc.patches", "cf.bins", "cf.patches", "cf.iter_bins", "cf.to_dict", "cf.to_file", "cf.add",
+               "cf.mul", "nc.add", "nc.mul", "nc.sum", "cf.pickle", "cf.deepcopy"}
+THENS = (None, "get_array", "sample")
+SD_OBS = ["sd.error", "sd.covariance", "sd.correlation", "sd.repr", "sd.eq", "sd.is_compatible", "sd.bins", "sd.iter_bins",
+          "sd.add", "sd.sub", "sd.to_files", "sd.normalised", "sd.pickle", "sd.getstate", "sd.deepcopy", "sd.binning"]
+SD_DERIVING = {"sd.bins", "sd.iter_bins", "sd.add", "sd.sub", "sd.to_files", "sd.normalised", "sd.pickle", "sd.deepcopy"}
+SD_THENS = (None, "normalised", "error")
+
+
+def op_label(op):
+    return op["op"] + ("+" + op["then"] if op.get("then") else "")
+
+
+def _item(op):
+    it = op["item"]
+    return int(it) if isinstance(it, int) else slice(it[0], it[1])
+
+
+def gen_item(rng, n):
+    """an index or a non-empty slice into an axis of length n"""
+    if n == 1 or rng.random() < 0.4:
+        return rng.randrange(n)
+    a = rng.randrange(n)
+    return [a, rng.randrange(a + 1, n + 1)]
+
+
+def _use(obj, then):
+    """what the caller does with a derived pair-count container"""
+    if then is None or obj is None:
+        return
+    if isinstance(obj, CorrFunc):
+        if then == "get_array":
+            for nc in obj.to_dict().values():
+                nc.get_array()
+        else:
+            obj.sample()
+    elif then == "get_array":
+        obj.get_array()
+    else:
+        obj.sample_patch_sum()
+
+
+def cf_call(env, op):
+    """perform one call of a history on env['cf'] (env['twin']: an equal, separately built CorrFunc)"""
+    cf, twin = env["cf"], env["twin"]
+    name, k, then = op["op"], op.get("k", "dd"), op.get("then")
+    nc, tnc = getattr(cf, k), getattr(twin, k)
+    if name == "set":
+        nc.counts.set_patch_pair(op["i"], op["j"], np.array(op["v"], dtype=float))
+    elif name == "nc.get_array":
+        nc.get_array()
+    elif name == "counts.get_array":
+        nc.counts.get_array()
+    elif name == "weights.get_array":
+        nc.sum_weights.get_array()
+    elif name == "nc.sample_patch_sum":
+        nc.sample_patch_sum()
+    elif name == "counts.sample_patch_sum":
+        nc.counts.sample_patch_sum()
+    elif name == "weights.sample_patch_sum":
+        nc.sum_weights.sample_patch_sum()
+    elif name == "nc.bins":
+        _use(nc.bins[_item(op)], then)
+    elif name == "nc.patches":
+        _use(nc.patches[_item(op)], then)
+    elif name == "cf.bins":
+        _use(cf.bins[_item(op)], then)
+    elif name == "cf.patches":
+        _use(cf.patches[_item(op)], then)
+    elif name == "cf.iter_bins":
+        for sub in cf.bins:
+            _use(sub, then)
+    elif name == "cf.to_dict":
+        for c in cf.to_dict().values():
+            _use(c, then)
+    elif name == "cf.to_file":
+        env["nfile"] = env.get("nfile", 0) + 1
+        path = os.path.join(env["dir"], "h%d.hdf" % env["nfile"])
+        try:
+            cf.to_file(path)
+            _use(CorrFunc.from_file(path), then)
+        finally:
+            if os.path.exists(path):
+                os.remove(path)
+    elif name == "cf.eq":
+        _ = (cf == twin, cf != twin, nc == tnc, nc.counts == tnc.counts, nc.sum_weights == tnc.sum_weights, cf == 1)
+    elif name == "cf.is_compatible":
+        _ = (cf.is_compatible(twin), cf.is_compatible(twin, require=True), nc.is_compatible(tnc),
+             nc.counts.is_compatible(tnc.counts, require=True), nc.sum_weights.is_compatible(tnc.sum_weights), cf.is_compatible(nc))
+    elif name == "cf.repr":
+        _ = (repr(cf), repr(nc), repr(nc.counts), repr(nc.sum_weights), cf.num_patches, cf.num_bins, cf.auto, nc.auto,
+             cf.binning.edges, cf.binning.mids, cf.binning.dz, nc.binning, nc.num_patches, nc.num_bins)
+    elif name == "cf.sample":
+        cf.sample()
+    elif name == "nz.from_corrfuncs":
+        RedshiftData.from_corrfuncs(cf)
+    elif name == "cf.add":
+        _use(cf + twin, then)
+    elif name == "cf.mul":
+        _use(cf * op["c"], then)
+    elif name == "nc.add":
+        _use(nc + tnc, then)
+    elif name == "nc.mul":
+        _use(nc * op["c"], then)
+    elif name == "nc.sum":
+        _use(sum([nc, tnc]), then)
+    elif name == "cf.pickle":
+        _use(_pickle.loads(_pickle.dumps(cf)), then)
+    elif name == "cf.deepcopy":
+        _use(_copy.deepcopy(cf), then)
+    else:
+        raise KeyError(name)
+
+
+def gen_cf_op(rng, spec, name=None, then=None, allow_set=False):
+    kinds = [k for k in ALLK if spec["kinds"][k] is not None]
+    B, N = len(spec["edges"]) - 1, spec["N"]
+    if name is None:
+        name = "set" if (allow_set and rng.random() < 0.25) else rng.choice(CF_OBS)
+        then = rng.choice(THENS) if name in CF_DERIVING else None
+    op = dict(op=name, k=rng.choice(kinds))
+    if name == "set":
+        op.update(i=rng.randrange(N), j=rng.randrange(N), v=[float(rng.choice([0, 1, 2, 5, 17, 40.5, 0.25])) for _ in range(B)])
+        return op
+    if name in ("nc.bins", "cf.bins"):
+        op["item"] = gen_item(rng, B)
+    if name in ("nc.patches", "cf.patches"):
+        op["item"] = gen_item(rng, N)
+    if name in ("cf.mul", "nc.mul"):
+        op["c"] = rng.choice([2.0, 0.5, 3, 1.0])
+    if name in CF_DERIVING:
+        op["then"] = then
+    return op
+
+
+def gen_cf_history(rng, spec, allow_set=False, lo=1, hi=6):
+    return [gen_cf_op(rng, spec, allow_set=allow_set) for _ in range(rng.randint(lo, hi))]
+
+
+def cf_single_op_histories(rng, spec):
+    """every observer once (with every use of its derived object): the deterministic sweep"""
+    out = []
+    for name in CF_OBS:
+        for then in (THENS if name in CF_DERIVING else (None,)):
+            out.append([gen_cf_op(rng, spec, name=name, then=then)])
+    return out
+
+
+def kinds_arrays(kinds):
+    return {k: None if p is None else dict(auto=bool(p["auto"]), counts=np.array(p["counts"], dtype=float),
+                                           w1=np.array(p["w1"], dtype=float), w2=np.array(p["w2"], dtype=float))
+            for k, p in kinds.items()}
+
+
+def _bits(a):
+    a = np.ascontiguousarray(np.asarray(a))
+    return (str(a.dtype), a.shape, a.tobytes())
+
+
+def cf_stored(cf):
+    """what the containers of a CorrFunc store, bit for bit (no copies are handed to the caller)"""
+    out = []
+    for k in ALLK:
+        nc = getattr(cf, k)
+        if nc is None:
+            out.append(None)
+            continue
+        out.append((bool(nc.counts.auto), bool(nc.sum_weights.auto), _bits(nc.counts.counts), _bits(nc.sum_weights.sum_weights1),
+                    _bits(nc.sum_weights.sum_weights2), _bits(nc.counts.binning.edges), _bits(nc.sum_weights.binning.edges),
+                    str(nc.counts.binning.closed)))
+    return tuple(out)
+
+
+def cf_expected(edges, arrs):
+    e = _bits(np.asarray(edges, dtype=float))
+    closed = str(Binning(edges, closed="right").closed)
+    return tuple(None if p is None else (p["auto"], p["auto"], _bits(p["counts"]), _bits(p["w1"]), _bits(p["w2"]), e, e, closed)
+                 for p in (arrs[k] for k in ALLK))
+
+
+def cf_state_plain(cf):
+    """the stored arrays of a CorrFunc as a `kinds` description (None if some number is not finite)"""
+    out = {}
+    for k in ALLK:
+        nc = getattr(cf, k)
+        if nc is None:
+            out[k] = None
+            continue
+        p = dict(auto=bool(nc.auto), counts=tolist(nc.counts.counts), w1=tolist(nc.sum_weights.sum_weights1),
+                 w2=tolist(nc.sum_weights.sum_weights2))
+        if not (all_finite(p["counts"]) and all_finite(p["w1"]) and all_finite(p["w2"])):
+            return None
+        out[k] = p
+    return out
+
+
+def run_cf_history(env, edges, kinds, hist, note):
+    """Run `hist` on env['cf'].  After every call the stored arrays of env['cf'] and env['twin'] are
+    compared bit for bit with the arrays the calls so far define (constructor arguments + the
+    set_patch_pair calls).  note(event, idx, op, detail) is told about 'changed' (first time only),
+    'twin-changed' and 'raised'.  Returns (final kinds as plain lists, the calls that were carried out)."""
+    cur = kinds_arrays(kinds)
+    twin_expected = cf_expected(edges, cur)
+    done, reported = [], set()
+    for idx, op in enumerate(hist):
+        try:
+            quiet(cf_call, env, op)
+            ok = True
+        except Exception as e:  # noqa: BLE001  a refusal is not a violation
+            ok = False
+            note("raised", idx, op, "%s: %s" % (type(e).__name__, e))
+        if op["op"] == "set":
+            if not ok:
+                continue          # refused: not part of the history the model sees
+            cur[op["k"]]["counts"][:, op["i"], op["j"]] = np.array(op["v"], dtype=float)
+        done.append(op)
+        if "cf" not in reported and cf_stored(env["cf"]) != cf_expected(edges, cur):
+            reported.add("cf")
+            note("changed", idx, op, None)
+        if "twin" not in reported and cf_stored(env["twin"]) != twin_expected:
+            reported.add("twin")
+            note("twin-changed", idx, op, None)
+    final = {k: None if p is None else dict(auto=p["auto"], counts=p["counts"].tolist(), w1=p["w1"].tolist(), w2=p["w2"].tolist())
+             for k, p in cur.items()}
+    return final, done
+
+
+def cfs_term(kinds):
+    return "(Build_cfs %s %s %s %s)" % (pc_term(kinds["dd"]), opt_pc(kinds["dr"]), opt_pc(kinds["rd"]), opt_pc(kinds["rr"]))
+
+
+def call_term(op):
+    if op["op"] == "set":
+        return "(H_set %s %s %s %s)" % (PKIND[op["k"]], fq.nat(op["i"]), fq.nat(op["j"]), fq.qlist(op["v"]))
+    return "(H_obs %s %s)" % (fq.nat(CF_OBS.index(op["op"])), PKIND[op.get("k", "dd")])
+
+
+def hist_case_term(N, kinds0, done, after, impl):
+    return "c04_hist_case %s %s %s %s %s" % (fq.nat(N), cfs_term(kinds0), fq.lst(done, call_term),
+                                             "None" if after is None else "(Some %s)" % cfs_term(after), impl)
+
+
+def same_bits(a, b):
+    return _bits(np.asarray(a, dtype=float)) == _bits(np.asarray(b, dtype=float))
+
+
+# ---- histories on CorrData / HistData / RedshiftData
+def _use_sd(obj, then):
+    if then is None or obj is None:
+        return
+    if then == "normalised":
+        obj.normalised()
+    else:
+        _ = obj.error
+
+
+def sd_call(env, op):
+    sd, twin = env["sd"], env["twin"]
+    name, then = op["op"], op.get("then")
+    if name == "sd.error":
+        _ = sd.error
+    elif name == "sd.covariance":
+        _ = sd.covariance
+    elif name == "sd.correlation":
+        _ = sd.correlation
+    elif name == "sd.repr":
+        _ = (repr(sd), sd.num_samples, sd.num_bins, sd.binning)
+    elif name == "sd.eq":
+        _ = (sd == twin, sd != twin, sd == 1)
+    elif name == "sd.is_compatible":
+        _ = (sd.is_compatible(twin), sd.is_compatible(twin, require=True), sd.is_compatible(3))
+    elif name == "sd.bins":
+        _use_sd(sd.bins[_item(op)], then)
+    elif name == "sd.iter_bins":
+        for sub in sd.bins:
+            _use_sd(sub, then)
+    elif name == "sd.add":
+        _use_sd(sd + twin, then)
+    elif name == "sd.sub":
+        _use_sd(sd - twin, then)
+    elif name == "sd.to_files":
+        env["nfile"] = env.get("nfile", 0) + 1
+        prefix = os.path.join(env["dir"], "s%d" % env["nfile"])
+        try:
+            sd.to_files(prefix)
+            _use_sd(type(sd).from_files(prefix), then)
+        finally:
+            for ext in (".dat", ".smp", ".cov"):
+                if os.path.exists(prefix + ext):
+                    os.remove(prefix + ext)
+    elif name == "sd.normalised":
+        _use_sd(sd.normalised(), then)
+    elif name == "sd.pickle":
+        _use_sd(_pickle.loads(_pickle.dumps(sd)), then)
+    elif name == "sd.getstate":
+        _ = sd.__getstate__()
+    elif name == "sd.deepcopy":
+        _use_sd(_copy.deepcopy(sd), then)
+    elif name == "sd.binning":
+        b = sd.binning
+        _ = (b.edges, b.mids, b.dz, b.left, b.right, b.closed, len(b), repr(b), b == twin.binning, b.copy())
+    else:
+        raise KeyError(name)
+
+
+def gen_sd_op(rng, B, name=None, then=None):
+    if name is None:
+        name = rng.choice(SD_OBS)
+        then = rng.choice(SD_THENS) if name in SD_DERIVING else None
+    op = dict(op=name)
+    if name == "sd.bins":
+        op["item"] = gen_item(rng, B)
+    if name in SD_DERIVING:
+        op["then"] = then
+    return op
+
+
+def sd_single_op_histories(rng, B):
+    return [[gen_sd_op(rng, B, name=name, then=then)] for name in SD_OBS
+            for then in (SD_THENS if name in SD_DERIVING else (None,))]
+
+
+def sd_stored(sd):
+    return (_bits(sd.data), _bits(sd.samples), _bits(sd.binning.edges), str(sd.binning.closed))
+
+
+def run_sd_history(env, hist, note):
+    """as run_cf_history, for a container holding (binning, data, samples); no public call stores into it"""
+    before, twin_before = sd_stored(env["sd"]), sd_stored(env["twin"])
+    reported = set()
+    for idx, op in enumerate(hist):
+        try:
+            quiet(sd_call, env, op)
+        except Exception as e:  # noqa: BLE001
+            note("raised", idx, op, "%s: %s" % (type(e).__name__, e))
+        if "sd" not in reported and sd_stored(env["sd"]) != before:
+            reported.add("sd")
+            note("changed", idx, op, None)
+        if "twin" not in reported and sd_stored(env["twin"]) != twin_before:
+            reported.add("twin")
+            note("twin-changed", idx, op, None)
